@@ -28,7 +28,7 @@ BUDGET = {
 # hooks that run between the return of a step and the entry of the next state, while the old state is still current
 HOOK_CKPTS = ('on_exit_running', 'on_exiting', 'on_run', 'on_wait', 'on_finish', 'on_kill', 'on_entering')
 ARGS = st.lists(st.one_of(st.integers(-1, 3), st.sampled_from(['a', '']), st.none(), st.booleans(), st.lists(st.integers(0, 2), max_size=2)), max_size=3)
-KWARGS = st.dictionaries(st.sampled_from(['p', 'q', 'r']), st.one_of(st.integers(0, 3), st.sampled_from(['x']), st.none()), max_size=3)
+KWARGS = st.dictionaries(st.sampled_from(['p', 'q', 'r', 'label', 'state_label', 'process', 'run_fn', 'continue_fn', 'args', 'kwargs', 'msg', 'data']), st.one_of(st.integers(0, 3), st.sampled_from(['x']), st.none()), max_size=3)
 RESUMES = st.one_of(st.just(NOVALUE), st.integers(0, 3), st.sampled_from(['v', '']), st.none(), st.lists(st.integers(0, 1), max_size=2), st.just({'__exc__': 'an exception instance is a value too'}), st.just({'__tuple__': [1, 2]}), st.booleans())
 
 
@@ -39,6 +39,10 @@ def enumerate_cases(tier, scope):
         ['continue', 1, [1, 'a'], {}],
         ['continue', 1, [], {'p': 1}],
         ['continue', 1, [0], {'p': None, 'q': 'x'}],
+        # keyword names are the caller's business: names that plumpy uses for its own parameters are keywords like any other
+        ['continue', 1, [], {'label': 1, 'state_label': 2}],
+        ['continue', 1, [2], {'process': 'x', 'run_fn': None}],
+        ['continue', 1, [], {'continue_fn': 1, 'args': [1], 'kwargs': {'a': 1}}],
         ['wait', 1, None, None],
         ['wait', 1, 'msg', {'d': [1]}],
     ]
@@ -51,6 +55,8 @@ def enumerate_cases(tier, scope):
                 for is_async in (False, True):
                     prog = {'steps': [gen.S([], first, is_async), gen.S([['yield']] if is_async else [], last, is_async)]}
                     yield {'program': prog, 'resumes': [res]}
+                    if res in (NOVALUE, 'v'):
+                        yield {'program': dict(prog, command_subclasses=True), 'resumes': [res]}
                     if first[0] == 'wait' and res in ('v', None):
                         yield {'program': prog, 'resumes': [res], 'enter_resumes': {'0': 'early' if res is None else None}}
 
@@ -83,6 +89,8 @@ def _cases(draw, tier):
         steps.append({'async': is_async, 'body': body, 'ret': ret})
     resumes = [draw(RESUMES) for _ in range(nwaits)]
     case = {'program': {'steps': steps}, 'resumes': resumes}
+    if draw(st.integers(0, 3)) == 0:
+        case['program']['command_subclasses'] = True  # the steps return application-defined subclasses of the commands
     if nwaits and draw(st.integers(0, 3)) == 0:
         # an application-defined WAITING state that resumes itself while it is being entered
         case['enter_resumes'] = {str(i): draw(st.sampled_from(['early', None, 0, {'__tuple__': [1]}])) for i in range(nwaits) if draw(st.booleans())}
@@ -228,6 +236,8 @@ def execute(case):
         classes.append('hook-time-checkpoint')
     if enter_resumes:
         classes.append('resumed-while-entering')
+    if program.get('command_subclasses'):
+        classes.append('command-subclasses')
     classes.append('end:' + exp_outcome['state'])
     return {
         'violations': viol,
